@@ -130,6 +130,8 @@ structure Hint where
   convex : Bool
   full : Bool
   xs : List Float
+  /-- a lower bound of the smallest eigenvalue of the quadratic form (after `lmin` in the hint) -/
+  lmin : Option Float := none
 
 structure S where
   fam : Nat := 0
@@ -164,6 +166,9 @@ structure S where
   another policy / other constraints has left the function outside the new ones: an input outside the
   property's quantifier) -/
   admissible : Bool := true
+  /-- the model's answer to the call being judged is the implementation's (what follows `#` apart):
+  only then may a verdict look at the model's state (the final simplex) -/
+  modelSame : Bool := false
   /-- an `init` has been answered since the optimiser was built -/
   inited : Bool := false
 
@@ -426,6 +431,33 @@ repair of `lineMinimization` / `lineSearch` (`powell_budget_calls`, …): for th
 optimisers, more calls than the cap before the last step begins is a violation. -/
 def lineMinKinds : List String := ["simple", "snewton", "meta", "newton1"]
 
+/-- why a downhill simplex stopped short of the minimiser, decided on the final simplex (the model's,
+which is the implementation's when the answers agree bit for bit).  Its stop test is
+`rTol = 2|yh - yl| / (|yh| + |yl|) < tol` on the values at the highest and the lowest vertex.
+* `_simplex_tie`: `rTol <= 1e-11` — the two values agree to rounding, so the test holds for *every*
+  tolerance of the quantifier (`>= 1e-10`) although the simplex is not small: two vertices mirror each
+  other across the minimiser (dimension 1 on symmetric objectives), or all vertices lie on one level set;
+* `_simplex_collapsed`: the diameter of the simplex is below half the distance from its best vertex to the
+  minimiser — repeated contractions have made it too small to see the slope (the spread of the values,
+  about diameter * |gradient|, is below `tol * |f|`: the test is relative to `|f|`) while it has not reached
+  the minimiser.
+Anything else — a simplex that is neither tied nor collapsed and still stops short — stays plain
+`convergence`: a violation. -/
+def simplexWhy (s : S) (best xs : List Float) : String :=
+  match s.opt with
+  | .simplex st =>
+    if !s.modelSame then "" else
+    let g := st.ext
+    let yh := g.y.getD g.iHighest 0
+    let yl := g.y.getD g.iLowest 0
+    if yh == yl || 2 * Float.abs (yh - yl) ≤ 1e-11 * (Float.abs yh + Float.abs yl) then "_simplex_tie" else
+    let vs := g.simplex.map values
+    let diam2 := vs.foldl (fun m a => vs.foldl (fun m b => let d := Spec.dist2 a b; if d > m then d else m) m) 0
+    let pt := s.names.map (fun nm => best.getD nm 0)
+    let xm := s.names.map (fun nm => xs.getD nm 0)
+    if 4 * diam2 ≤ Spec.dist2 pt xm then "_simplex_collapsed" else ""
+  | _ => ""
+
 def verdictRun (s : S) (o : String) (t : List String) : S × String :=
   let status := t.headD ""
   let log := implLog s t
@@ -496,12 +528,19 @@ def verdictRun (s : S) (o : String) (t : List String) : S × String :=
         && s.kind != "nback" && inInterval && h.xs.length == s.n then
       let fstar := s.obj h.xs
       let f0 := s.startVal.getD cur
-      let scale := [1.0, Float.abs fstar, Float.abs (f0 - fstar)].foldl (fun m x => if x > m then x else m) 0
-      let kap := if h.kappa > 1 then h.kappa else 1
-      let bound := 100 * s.n.toFloat * kap * s.tolGiven.getD 0 * scale
+      let bound := Spec.convBound s.n h.kappa (s.tolGiven.getD 0) fstar f0
+      -- whether the bound says more than descent does goes into the verdict (counted in the evidence)
+      let tag := if Spec.convNontrivial f0 fstar bound then "ok:conv:nontrivial" else "ok:conv:implied_by_descent"
       -- a run that came within 1e-6 of a bound (a start on a bound, a trial the automatic policy corrected)
       -- although the minimiser lies well inside every bound is judged under a clause of its own
-      if cur - fstar ≤ bound then (s1, "ok") else (s1, if touched then "FAIL:convergence_touching_bound" else "FAIL:convergence")
+      let sfx := if touched then "_touching_bound" else ""
+      if !Spec.convergedGap cur fstar bound then
+        (s1, "FAIL:convergence" ++ (if s.kind == "simplex" && !touched then simplexWhy s ptP h.xs else sfx))
+      else
+        match h.lmin with
+        | some lmin =>
+          if !Spec.convergedDist lmin ptP h.xs bound then (s1, "FAIL:convergence_distance" ++ sfx) else (s1, tag)
+        | none => (s1, tag)
     else (s1, "ok")
   | none => (s1, "ok")
 
@@ -534,7 +573,9 @@ def step (s : S) (op : List String) (impl : Option (List String)) : S × String 
       (s', "ok v=" ++ canon (s'.obj x0), "ok")
     | none => (s, "bad-op", "-")
   | "hint" :: kap :: ins :: cv :: fu :: r =>
-    ({ s with hint := some ⟨(pF kap).getD 0, ins == "1", cv == "1", fu == "1", r.filterMap pF⟩ }, "ok", "ok")
+    let xs := (r.takeWhile (· != "lmin")).filterMap pF
+    let lmin := ((r.dropWhile (· != "lmin")).drop 1).head?.bind pF
+    ({ s with hint := some ⟨(pF kap).getD 0, ins == "1", cv == "1", fu == "1", xs, lmin⟩ }, "ok", "ok")
   | "opt" :: kind :: pol :: tol :: mx :: extra =>
     let pol := if pol == "a" then Policy.auto else if pol == "i" then Policy.ignore else Policy.keep
     let fn0 := match coreOf s.opt with
@@ -611,7 +652,9 @@ def step (s : S) (op : List String) (impl : Option (List String)) : S × String 
       match impl with
       -- (a script cut down by the shrinker may call an optimiser that was never initialised: `optimize`
       -- refuses, `step` does not check; nothing of the property is about that)
-      | some t => if s1.inited then (let (s2, v) := verdictRun s1 o t; (s2, out, v)) else (s1, out, "ok")
+      | some t =>
+        let same := t.takeWhile (· != "#") == (out.splitOn " ").filter (· != "")
+        if s1.inited then (let (s2, v) := verdictRun { s1 with modelSame := same } o t; (s2, out, v)) else (s1, out, "ok")
       | none => (s1, out, "-")
   | _ => (s, "bad-op", "-")
 
